@@ -9,6 +9,11 @@
 * `DictStates`    -- the contents of a dict-valued local at a program point, per path of the path model
 * `arms`          -- the leaves of a conditional expression with the conditions under which each is chosen
 * `key_read`, `field_assigns`, `callable_target`, `recv_is`
+* `choices_as_branches` -- conditional expressions / min / max in pure assignments rewritten (private copy) as the if/else
+                     ladders they stand for, so that a path-wise symbolic execution sees one value per path
+* `RegionPaths`   -- feasible paths from a CFG node to the ends of the function, exceptional edges included, with the
+                     constants / tokens bound to locals propagated and the branches they decide pruned
+                     (`const_eval`, `entry_constants`, `Token`)
 """
 
 import ast
@@ -976,3 +981,480 @@ def callable_target(fi, e):
                 if not b.args and not b.keywords:
                     return chain(b.func)
     return None
+
+
+# ---------------------------------------------------------------------------
+# choice expressions as branches
+
+
+def _is_builtin_call(fnode, e, names):
+    return isinstance(e, ast.Call) and isinstance(e.func, ast.Name) and e.func.id in names and not writes_to_name(fnode, e.func.id)
+
+
+def _choice_of(fnode, e):
+    """(test, value if true, value if false) when `e` *is* a choice between values: `A if c else B`, `min(A, B, ...)`,
+    `max(A, B, ...)` (n-ary forms are folded from the left: min(A, B, C) = min(A, min(B, C)))."""
+    if isinstance(e, ast.IfExp):
+        return e.test, e.body, e.orelse
+    if _is_builtin_call(fnode, e, ("min", "max")) and len(e.args) >= 2 and not e.keywords and not any(isinstance(a, ast.Starred) for a in e.args):
+        a = e.args[0]
+        b = e.args[1] if len(e.args) == 2 else ast.copy_location(ast.Call(func=e.func, args=list(e.args[1:]), keywords=[]), e)
+        op = ast.LtE() if e.func.id == "min" else ast.GtE()
+        return ast.copy_location(ast.Compare(left=a, ops=[op], comparators=[b]), e), a, b
+    return None
+
+
+def _first_choice(fnode, e):
+    """the first (outermost, leftmost) choice sub-expression of e outside nested scopes, or None"""
+    todo = [e]
+    while todo:
+        n = todo.pop(0)
+        if isinstance(n, (ast.Lambda, ast.ListComp, ast.SetComp, ast.DictComp, ast.GeneratorExp)):
+            continue
+        if _choice_of(fnode, n) is not None:
+            return n
+        todo.extend(ast.iter_child_nodes(n))
+    return None
+
+
+def _pure_arith(fnode, e):
+    """no call other than min/max/abs/int/len, no await/yield/walrus: evaluating e (or parts of it) twice or not at
+    all changes nothing"""
+    for n in ast.walk(e):
+        if isinstance(n, (ast.Await, ast.Yield, ast.YieldFrom, ast.NamedExpr, ast.Lambda)):
+            return False
+        if isinstance(n, ast.Call) and not _is_builtin_call(fnode, n, ("min", "max", "abs", "int", "len")):
+            return False
+    return True
+
+
+def _replace_node(root, old, new):
+    """fresh copy of the tree `root` with the node `old` (by identity) replaced by a copy of `new`"""
+    if root is old:
+        return copy.deepcopy(new)
+    if not isinstance(root, ast.AST):
+        return root
+    kw = {}
+    for f, v in ast.iter_fields(root):
+        if isinstance(v, list):
+            kw[f] = [_replace_node(x, old, new) for x in v]
+        else:
+            kw[f] = _replace_node(v, old, new)
+    n = type(root)(**kw)
+    return ast.copy_location(n, root) if hasattr(root, "lineno") else n
+
+
+class _ChoiceToIf(ast.NodeTransformer):
+    """`t = E[choice(c, A, B)]` -> `if c: t = E[A]  else: t = E[B]`, repeatedly, for assignments whose value is pure
+    arithmetic.  In the original the condition (for min/max: the comparison of the operands) decides which operand is
+    the value; the rewritten form makes that decision a branch, so a path-wise symbolic execution sees every value the
+    target can take together with the condition under which it takes it."""
+
+    def __init__(self, fnode, budget=64):
+        self.fnode = fnode
+        self.budget = budget
+
+    def _split(self, st, mk):
+        v = st.value
+        if v is None or not _pure_arith(self.fnode, v) or self.budget <= 0:
+            return st
+        ch = _first_choice(self.fnode, v)
+        if ch is None:
+            return st
+        self.budget -= 1
+        test, a, b = _choice_of(self.fnode, ch)
+        sa = ast.copy_location(mk(_replace_node(v, ch, a)), st)
+        sb = ast.copy_location(mk(_replace_node(v, ch, b)), st)
+        return ast.copy_location(ast.If(test=copy.deepcopy(test), body=[self.visit(sa)], orelse=[self.visit(sb)]), st)
+
+    def visit_Assign(self, st):
+        return self._split(st, lambda v: ast.Assign(targets=copy.deepcopy(st.targets), value=v))
+
+    def visit_AugAssign(self, st):
+        return self._split(st, lambda v: ast.AugAssign(target=copy.deepcopy(st.target), op=st.op, value=v))
+
+    def visit_AnnAssign(self, st):
+        return self._split(st, lambda v: ast.AnnAssign(target=copy.deepcopy(st.target), annotation=st.annotation, value=v, simple=st.simple))
+
+    def visit_FunctionDef(self, n):
+        return n
+
+    visit_AsyncFunctionDef = visit_FunctionDef
+    visit_Lambda = visit_FunctionDef
+    visit_ClassDef = visit_FunctionDef
+
+
+def choices_as_branches(prog, fi):
+    """FuncInfo of a private copy of fi in which every pure assignment from a choice expression (conditional
+    expression, min, max -- also nested in arithmetic or in each other) is an if/else ladder; fi itself when there is
+    nothing to rewrite."""
+    cache = prog.__dict__.setdefault("_c13_choices", {})
+    if fi.qn in cache:
+        return cache[fi.qn]
+    node = copy.deepcopy(fi.node)
+
+    tr = _ChoiceToIf(node)
+    tr.generic_visit(node)
+    ast.fix_missing_locations(node)
+    if ast.dump(node) == ast.dump(fi.node):
+        cache[fi.qn] = fi
+    else:
+        cache[fi.qn] = FuncInfo(fi.qn, node, fi.module, fi.cls, fi.parent)
+    return cache[fi.qn]
+
+
+# ---------------------------------------------------------------------------
+# feasible paths of a region under constant propagation
+
+
+class _Unknown:
+    def __repr__(self):
+        return "?"
+
+
+UNKNOWN = _Unknown()
+
+
+class Token:
+    """an opaque run-time object with an identity the rule knows (e.g. "what json.load returned for the state file")"""
+
+    def __init__(self, name):
+        self.name = name
+
+    def __repr__(self):
+        return "<%s>" % self.name
+
+
+def const_eval(e, env):
+    """Value of `e` when it is decided by the constants / tokens the names stand for in `env`, else UNKNOWN.
+    Only total operations on constants are interpreted (boolean operators, identity / equality / membership / order
+    comparisons, conditional expressions); nothing of the analysed program is executed."""
+    if isinstance(e, ast.Constant):
+        return e.value
+    if isinstance(e, ast.Name):
+        return env.get(e.id, UNKNOWN)
+    if isinstance(e, ast.UnaryOp) and isinstance(e.op, ast.Not):
+        v = const_eval(e.operand, env)
+        if v is UNKNOWN or isinstance(v, Token):
+            return UNKNOWN  # (the truth value of a token is not known)
+        return not bool(v)
+    if isinstance(e, ast.BoolOp):
+        isand = isinstance(e.op, ast.And)
+        last = UNKNOWN
+        for x in e.values:
+            v = const_eval(x, env)
+            if v is UNKNOWN or isinstance(v, Token):
+                return UNKNOWN
+            last = v
+            if bool(v) != isand:
+                return v
+        return last
+    if isinstance(e, ast.IfExp):
+        t = const_eval(e.test, env)
+        if t is UNKNOWN or isinstance(t, Token):
+            a, b = const_eval(e.body, env), const_eval(e.orelse, env)
+            if a is not UNKNOWN and not isinstance(a, Token) and type(a) is type(b) and a == b:
+                return a
+            return UNKNOWN
+        return const_eval(e.body if t else e.orelse, env)
+    if isinstance(e, (ast.Tuple, ast.List)):
+        vs = [const_eval(x, env) for x in e.elts]
+        if any(v is UNKNOWN or isinstance(v, Token) for v in vs):
+            return UNKNOWN
+        return tuple(vs)
+    if isinstance(e, ast.Compare):
+        left = const_eval(e.left, env)
+        res = True
+        for op, r in zip(e.ops, e.comparators):
+            right = const_eval(r, env)
+            if left is UNKNOWN or right is UNKNOWN:
+                return UNKNOWN
+            if isinstance(left, Token) or isinstance(right, Token):
+                # the identity of a token is known, its value is not
+                if isinstance(op, (ast.Is, ast.IsNot)) and isinstance(left, Token) and isinstance(right, Token):
+                    v = (left is right) == isinstance(op, ast.Is)
+                else:
+                    return UNKNOWN
+            else:
+                try:
+                    if isinstance(op, ast.Is):
+                        v = left is right if (left is None or right is None or isinstance(left, bool) or isinstance(right, bool)) else UNKNOWN
+                    elif isinstance(op, ast.IsNot):
+                        v = left is not right if (left is None or right is None or isinstance(left, bool) or isinstance(right, bool)) else UNKNOWN
+                    elif isinstance(op, ast.Eq):
+                        v = left == right
+                    elif isinstance(op, ast.NotEq):
+                        v = left != right
+                    elif isinstance(op, ast.In):
+                        v = left in right
+                    elif isinstance(op, ast.NotIn):
+                        v = left not in right
+                    elif isinstance(op, ast.Lt):
+                        v = left < right
+                    elif isinstance(op, ast.LtE):
+                        v = left <= right
+                    elif isinstance(op, ast.Gt):
+                        v = left > right
+                    elif isinstance(op, ast.GtE):
+                        v = left >= right
+                    else:
+                        return UNKNOWN
+                except TypeError:
+                    return UNKNOWN
+                if v is UNKNOWN:
+                    return UNKNOWN
+            if not v:
+                return False
+            left = right
+        return res
+    return UNKNOWN
+
+
+def _stored_names(root):
+    """names (re)bound by the expression / simple statement `root` itself (targets, walrus, del)"""
+    out = set()
+    for n in walk_no_nested(root):
+        if isinstance(n, ast.Name) and isinstance(n.ctx, (ast.Store, ast.Del)):
+            out.add(n.id)
+        elif isinstance(n, ast.NamedExpr) and isinstance(n.target, ast.Name):
+            out.add(n.target.id)
+    return out
+
+
+_NO_RAISE_VALUE = (ast.Name, ast.Constant, ast.Tuple, ast.List, ast.Load, ast.Store)
+
+
+def cannot_raise(node):
+    """a CFG node whose execution cannot raise: binding locals to constants / other locals, pass, pseudo nodes"""
+    a = node.ast
+    if node.kind in ("T", "F", "join", "handler", "entry", "exit", "rexit"):
+        return True
+    if node.kind != "stmt" or a is None:
+        return False
+    if isinstance(a, ast.Pass):
+        return True
+    if isinstance(a, ast.Assign):
+        return all(isinstance(t, ast.Name) or (isinstance(t, (ast.Tuple, ast.List)) and all(isinstance(x, ast.Name) for x in t.elts)) for t in a.targets) \
+            and all(isinstance(x, _NO_RAISE_VALUE) for x in ast.walk(a.value)) \
+            and not any(isinstance(t, (ast.Tuple, ast.List)) for t in a.targets if not isinstance(a.value, (ast.Tuple, ast.List)))
+    if isinstance(a, ast.AnnAssign):
+        return isinstance(a.target, ast.Name) and (a.value is None or all(isinstance(x, _NO_RAISE_VALUE) for x in ast.walk(a.value)))
+    return False
+
+
+class RPath:
+    """one feasible path of a region: node ids, the edge labels taken (labels[i] leads from nodes[i] to nodes[i+1]),
+    the environment *before* each node, the decisions on undecided atoms, and how it ends"""
+
+    __slots__ = ("nodes", "labels", "envs", "decisions", "end")
+
+    def __init__(self, nodes, labels, envs, decisions, end):
+        self.nodes, self.labels, self.envs, self.decisions, self.end = nodes, labels, envs, decisions, end
+
+    def positions(self, nids):
+        return [i for i, n in enumerate(self.nodes) if n in nids]
+
+    def completed(self, i):
+        """the node at position i was left along a non-exceptional edge"""
+        return i < len(self.labels) and self.labels[i] != "exc"
+
+    def took(self, src, dst, label=None, before=None):
+        for i in range(len(self.labels) if before is None else min(before, len(self.labels))):
+            if self.nodes[i] == src and self.nodes[i + 1] == dst and (label is None or self.labels[i] == label):
+                return True
+        return False
+
+
+class RegionPaths:
+    """Feasible paths from CFG node `start` to the ends of the function, exceptional edges included, under
+    propagation of the constants (True/False/None/numbers/strings) and tokens bound to locals along each path.
+
+    A branch whose test is decided by those bindings is followed on the decided side only -- this is what makes
+    `flag = True ... except E: flag = False ... if not flag:` the same as code placed in the handler itself.  Tests that
+    are not decided get one decision per normalised atom (paths.PathModel.key_of), kept consistent along the path.
+    Every pruned edge is one that cannot be taken at run time (the test's value follows from assignments on the very
+    path), so a fact that holds on every enumerated path holds on every run.
+
+    exc_feasible(src_node, dst_node) may rule out exceptional edges (an exception class the source cannot raise).
+    special(value expr, env, node) -> Token | None gives selected right-hand sides an identity."""
+
+    def __init__(self, fi, start, env0=None, special=None, exc_feasible=None, max_paths=4000, max_visits=2):
+        self.fi = fi
+        self.pm = PathModel(fi)
+        self.cfg = self.pm.cfg
+        self.start = start
+        self.env0 = dict(env0 or {})
+        self.special = special
+        self.exc_feasible = exc_feasible
+        self.max_paths = max_paths
+        self.max_visits = max_visits
+        self.cut = False
+        self._paths = None
+
+    # -- transfer function
+    def _bind(self, env, target, value_expr, node, cur):
+        if isinstance(target, ast.Name):
+            v = UNKNOWN
+            if value_expr is not None:
+                if self.special is not None:
+                    tok = self.special(value_expr, cur, node)
+                    if tok is not None:
+                        v = tok
+                if v is UNKNOWN:
+                    v = const_eval(value_expr, cur)
+            if v is UNKNOWN:
+                env.pop(target.id, None)
+            else:
+                env[target.id] = v
+        elif isinstance(target, (ast.Tuple, ast.List)):
+            if isinstance(value_expr, (ast.Tuple, ast.List)) and len(value_expr.elts) == len(target.elts) \
+                    and not any(isinstance(x, ast.Starred) for x in list(target.elts) + list(value_expr.elts)):
+                for t, v in zip(target.elts, value_expr.elts):
+                    self._bind(env, t, v, node, cur)
+            else:
+                for n in _stored_names(target):
+                    env.pop(n, None)
+
+    def step(self, env, node):
+        """environment after the node completed normally"""
+        a = node.ast
+        k = node.kind
+        if a is None or k in ("T", "F", "join", "return", "raise"):
+            return env
+        new = dict(env)
+        if k == "with":
+            for it in a.items:
+                for n in _stored_names(it.context_expr):
+                    new.pop(n, None)
+                if it.optional_vars is not None:
+                    for n in _stored_names(it.optional_vars):
+                        new.pop(n, None)
+            return new
+        if k == "for":
+            for n in _stored_names(a.target) | _stored_names(a.iter):
+                new.pop(n, None)
+            return new
+        if k == "handler":
+            if a.name:
+                new.pop(a.name, None)
+            return new
+        if k == "test":
+            for n in _stored_names(a):
+                new.pop(n, None)
+            return new
+        if isinstance(a, ast.Assign):
+            for n in _stored_names(a.value):
+                new.pop(n, None)
+            cur = dict(new)
+            for t in a.targets:
+                self._bind(new, t, a.value, node, cur)
+            return new
+        if isinstance(a, ast.AnnAssign) and a.value is not None:
+            cur = dict(new)
+            self._bind(new, a.target, a.value, node, cur)
+            return new
+        if isinstance(a, (ast.FunctionDef, ast.AsyncFunctionDef, ast.ClassDef)):
+            new.pop(a.name, None)
+            return new
+        if isinstance(a, (ast.Import, ast.ImportFrom)):
+            for al in a.names:
+                new.pop((al.asname or al.name).split(".")[0], None)
+            return new
+        for n in _stored_names(a):
+            new.pop(n, None)
+        return new
+
+    # -- enumeration
+    def paths(self):
+        if self._paths is not None:
+            return self._paths
+        c = self.cfg
+        out = []
+        stack = [(self.start, (), (), (), dict(self.env0), {})]
+        while stack:
+            nid, nodes, labels, envs, env, dec = stack.pop()
+            nodes = nodes + (nid,)
+            envs = envs + (env,)
+            node = c.nodes[nid]
+            if nid == c.exit or nid == c.rexit:
+                out.append(RPath(list(nodes), list(labels), list(envs), dec, "return" if nid == c.exit else "raise"))
+                if len(out) > self.max_paths:
+                    raise AnalysisError("%s: more than %d feasible paths after node %d" % (self.fi.short, self.max_paths, self.start))
+                continue
+            if nodes.count(nid) > self.max_visits:
+                self.cut = True
+                out.append(RPath(list(nodes), list(labels), list(envs), dec, "cut"))
+                continue
+            succ = c.succ[nid]
+            if not succ:
+                out.append(RPath(list(nodes), list(labels), list(envs), dec, "raise" if node.kind == "raise" else "fall"))
+                continue
+            after = self.step(env, node)
+            want = None
+            key = None
+            if node.kind == "test":
+                v = const_eval(node.ast, env)
+                if v is not UNKNOWN and not isinstance(v, Token):
+                    want = "T" if v else "F"
+                else:
+                    key, pol = self.pm.key_of(node)
+                    if key in dec:
+                        want = "T" if dec[key] == pol else "F"
+            for d, lab in succ:
+                if lab == "exc":
+                    if node.kind != "raise" and cannot_raise(node):
+                        continue
+                    if self.exc_feasible is not None and not self.exc_feasible(node, c.nodes[d]):
+                        continue
+                    # the statement did not complete: its bindings did not happen
+                    stack.append((d, nodes, labels + (lab,), envs, env, dec))
+                    continue
+                if lab in ("T", "F") and node.kind == "test":
+                    if want is not None and lab != want:
+                        continue
+                    nd = dec
+                    if want is None and key is not None:
+                        nd = dict(dec)
+                        nd[key] = (lab == "T") == pol
+                    stack.append((d, nodes, labels + (lab,), envs, after, nd))
+                    continue
+                stack.append((d, nodes, labels + (lab,), envs, after, dec))
+        self._paths = out
+        return out
+
+    def through(self, nids):
+        nids = set(nids)
+        return [p for p in self.paths() if nids & set(p.nodes)]
+
+    def describe(self, p):
+        d = ["%s%s" % ("" if v else "not ", k) for k, v in sorted(p.decisions.items())]
+        ex = [stmt_text(self.cfg.nodes[p.nodes[i]].ast, 40) for i, l in enumerate(p.labels) if l == "exc" and self.cfg.nodes[p.nodes[i]].ast is not None]
+        return ", ".join(d + ["%s raises" % x for x in ex]) or "<unconditional>"
+
+
+def entry_constants(fi, cfg, at):
+    """{local: constant} known on arrival at CFG node `at` without looking at paths: the name's only write that can
+    reach `at` is `name = <constant>` (possibly one of several writes, the others all before it) and it dominates `at`."""
+    out = {}
+    names = {}
+    for n in walk_no_nested(fi.node):
+        if isinstance(n, ast.Name) and isinstance(n.ctx, (ast.Store, ast.Del)):
+            names.setdefault(n.id, None)
+    prm = set(params(fi, skip_self=False))
+    for name in names:
+        if name in prm:
+            continue
+        ws = [(nid, w) for w in writes_to_name(fi.node, name) for nid in cfg.locate(w)]
+        live = [(nid, w) for nid, w in ws if nid != at and at in cfg.reach({nid})]
+        if not live or len(ws) != len(writes_to_name(fi.node, name)):
+            continue
+        last = [(nid, w) for nid, w in live if cfg.dominates(nid, at) and not any(o != nid and o in cfg.reach({nid}) for o, _ in live)
+                and nid not in cfg.reach({nid})]
+        if len(last) != 1:
+            continue
+        w = last[0][1]
+        if isinstance(w, ast.Assign) and len(w.targets) == 1 and isinstance(w.targets[0], ast.Name):
+            v = const_eval(w.value, {})
+            if v is not UNKNOWN:
+                out[name] = v
+    return out
